@@ -185,7 +185,7 @@ func init() {
 		Rule: "cases = the C04 worlds; per segment: the bytes of Merger.WriteTo (merged segments) and of Segment.WriteTo (built, merged-and-loaded, memory-/file-loaded) are checked with an independent footer parser: last 4 bytes == CRC-32/IEEE of all preceding bytes, footer doc count/version/chunk mode/offsets == what the loaded segment reports, n == bytes received; then a load->write chain of length 3 (memory/file alternating) must reproduce the file byte for byte; " +
 			"evaluations = files checked; non-trivial = file of a segment with >=1 document, distinct by file content hash",
 		Assumptions: InputContract,
-		Phases:      []runner.Phase{{Name: "footer", Cases: cases(150, 4000), Run: c11Run}},
+		Phases:      []runner.Phase{{Name: "footer", Cases: cases(1500, 40000), Run: c11Run}},
 		Floors: func(string) map[string]int64 {
 			return map[string]int64{"files.merger": 100, "repersist_identical.file": 300, "repersist_identical.memory": 300}
 		},
